@@ -13,13 +13,23 @@
     concatenation of the row groups), columnPages (Cursor/ColumnPages.v: the
     pages of a column of a file, one page cursor per row group), reader /
     Reader / GenericReader, and asyncPages under every interleaving of its two
-    goroutines. *)
+    goroutines.
+
+    Beside the page cursor (Cursor/Forward.v): the row readers that seek
+    forward only by reading and dropping rows of the reader underneath
+    (forwardRowSeeker behind ConvertRowReader, mergedRowGroupRows and
+    concatenatingRowsWrapper behind the Rows() of merged row groups), for every
+    way the reader underneath cuts its batches short; and the row window of the
+    columnar variant reader over leaf columns that are opened lazily
+    (Cursor/VariantLeaves.v). *)
 From Coq Require Import List Arith Bool Lia.
 From PQ Require Import Conc.Sem Conc.Async.
 From PQ Require Import Cursor.Model Cursor.Spec Cursor.Proofs Cursor.Rows.
 From PQ Require Import Cursor.Multi Cursor.MultiProofs Cursor.AsyncPages Cursor.AsyncPagesProofs.
 From PQ Require Import Cursor.Nested Cursor.NestedProofs.
 From PQ Require Import Cursor.ColumnPages Cursor.ColumnPagesProofs.
+From PQ Require Import Cursor.Forward Cursor.ForwardProofs.
+From PQ Require Import Cursor.VariantLeaves Cursor.VariantLeavesProofs.
 Import ListNotations.
 
 (** ** Page cursor with an offset index *)
@@ -520,3 +530,111 @@ Proof. vm_compute. eexists. repeat split. Qed.
 
 Example C08_ex_noclose : Forall noclose ex_calls.
 Proof. repeat constructor; discriminate. Qed.
+
+(** ** Readers that seek forward only (Cursor/Forward.v)
+
+    forwardRowSeeker (ConvertRowReader), mergedRowGroupRows and
+    concatenatingRowsWrapper (the Rows() of the row groups MergeRowGroups
+    returns) satisfy SeekToRow by reading rows of the reader underneath and
+    dropping them: inside ReadRows, skipping whole batches and the head of the
+    batch the target lies in (forwardRowSeeker), in a loop in front of the read
+    (mergedRowGroupRows), or at once in SeekToRow, 64 rows at a time
+    (concatenatingRowsWrapper).  For EVERY number of rows, EVERY policy of the
+    reader underneath (the c-th call returns at most [pol c] rows; io.EOF with
+    the last rows or after them) and EVERY finite history of ReadRows(n) and
+    SeekToRow(k), the outputs are [sound]: every batch starts at the row
+    position (the target of the last successful seek plus the rows read since)
+    and stays within the rows, a read of n > 0 rows returns rows unless the
+    position is at or past the end, io.EOF only comes with or after the last
+    row, a seek is only refused when it goes backward, and only fails with
+    io.EOF when its target is the end or beyond. *)
+Theorem C08_forward_row_seeker_sound : forall N eofl pol ops,
+  sound N 0 ops (run_fws N eofl pol ops).
+Proof. exact fws_sound. Qed.
+
+Theorem C08_merged_rows_sound : forall N eofl pol ops,
+  sound N 0 ops (run_lz N eofl pol ops).
+Proof. exact lz_sound. Qed.
+
+Theorem C08_concatenating_rows_sound : forall N eofl pol ops,
+  sound N 0 ops (run_eg N eofl pol ops).
+Proof. exact eg_sound. Qed.
+
+(** The statement in the words of the property: after any history, a seek to
+    k that succeeds followed by a read that returns rows returns rows from k
+    on. *)
+Theorem C08_forward_seek_then_read : forall N ops outs pos k n f c e,
+  sound N pos (ops ++ [FSeek k; FRead n]) (outs ++ [FSeekOk; FRows f c e]) ->
+  length ops = length outs ->
+  0 < c -> f = k /\ k + c <= N.
+Proof. exact sound_app_seek_read. Qed.
+
+(** mergedRowGroupRows.ReadRows with one conditional read in place of the
+    loop drops at most one batch: a seek farther than the next batch is not
+    honoured. *)
+Theorem C08_merged_rows_drop_once_refuted :
+  ~ sound 10 0 [FSeek 5; FRead 2] (run_lz_once 10 false (fun _ => 0) [FSeek 5; FRead 2]).
+Proof. exact lz_once_refuted. Qed.
+
+Print Assumptions C08_forward_row_seeker_sound.
+Print Assumptions C08_merged_rows_sound.
+Print Assumptions C08_concatenating_rows_sound.
+Print Assumptions C08_forward_seek_then_read.
+Print Assumptions C08_merged_rows_drop_once_refuted.
+
+(* 10 rows, batches cut to 4, 1, 3, 4, 1, ... rows, io.EOF with the last rows:
+   a seek into the second batch, a refused seek backward, a seek accepted
+   because the rows before it were only skipped, a seek beyond the end *)
+Example C08_ex_forward_row_seeker :
+  run_fws 10 true (cycle [4; 1; 3]) [FSeek 5; FRead 8; FSeek 2; FRead 1; FSeek 9; FSeek 8; FRead 3; FSeek 12; FRead 1]
+  = [FSeekOk; FRows 5 3 false; FRefused; FRows 8 1 false; FSeekOk; FRefused; FRows 9 1 true; FSeekOk; FRows 10 0 true].
+Proof. vm_compute. reflexivity. Qed.
+
+Example C08_ex_merged_rows :
+  run_lz 10 false (cycle [4; 1; 3]) [FSeek 7; FSeek 5; FRead 2; FRead 8; FSeek 12; FRead 1] =
+  [FSeekOk; FSeekOk; FRows 5 2 false; FRows 7 1 false; FSeekOk; FRows 0 0 true] /\
+  run_lz_once 10 false (fun _ => 0) [FSeek 5; FRead 2] = [FSeekOk; FRows 2 2 false].
+Proof. split; vm_compute; reflexivity. Qed.
+
+Example C08_ex_concatenating_rows :
+  run_eg 10 true (fun _ => 0) [FRead 2; FSeek 1; FSeek 6; FRead 8; FSeek 10; FSeek 12] =
+  [FRows 0 2 false; FRefused; FSeekOk; FRows 6 4 true; FSeekOk; FSeekEOF].
+Proof. vm_compute. reflexivity. Qed.
+
+(** ** The row window of the columnar variant reader (Cursor/VariantLeaves.v)
+
+    VariantReader keeps one row offset for all cursors; the page reader of a
+    leaf column is opened the first time a cursor that needs it takes part in
+    Next, and SeekToRow is recorded per open leaf and applied at its next
+    window.  For EVERY number of leaf columns, EVERY number of rows and EVERY
+    finite history of cursor creations, Next(n) and SeekToRow(k), the windows
+    are those of one row offset and every leaf that is read delivers the rows
+    of the window, wherever in the history its cursor was created (before the
+    first Next, after reads, between a SeekToRow and the next Next). *)
+Theorem C08_variant_window_refines_offset : forall nleaves N ops,
+  run_variant nleaves N ops = run_vspec nleaves N ops.
+Proof. exact variant_refines. Qed.
+
+(** Had SeekToRow marked the leaves that are not open yet and open() not
+    positioned the page reader at the offset of the reader, a leaf whose
+    cursor is created after the reader advanced would read from row 0. *)
+Theorem C08_variant_late_leaf_seeded_refuted :
+  run_variant_seeded 2 20 [VCreate 0; VNext 10; VCreate 1; VNext 5]
+  <> run_vspec 2 20 [VCreate 0; VNext 10; VCreate 1; VNext 5].
+Proof. exact variant_seeded_refuted. Qed.
+
+Print Assumptions C08_variant_window_refines_offset.
+Print Assumptions C08_variant_late_leaf_seeded_refuted.
+
+(* a cursor created after a Next, another between SeekToRow and Next, a seek
+   beyond the rows, the end of the rows *)
+Example C08_ex_variant :
+  run_variant 3 20 [VCreate 0; VNext 8; VCreate 1; VNext 4; VSeek 15; VCreate 2; VNext 9; VNext 1; VSeek 21; VSeek 3; VNext 2]
+  = [VDone; VWindow 0 8 [Some 0; None; None]; VDone; VWindow 8 4 [Some 8; Some 8; None]; VSeekOk; VDone;
+     VWindow 15 5 [Some 15; Some 15; Some 15]; VEOF; VOutOfRange; VSeekOk; VWindow 3 2 [Some 3; Some 3; Some 3]].
+Proof. vm_compute. reflexivity. Qed.
+
+Example C08_ex_variant_seeded :
+  run_variant_seeded 2 20 [VCreate 0; VNext 10; VCreate 1; VNext 5]
+  = [VDone; VWindow 0 10 [Some 0; None]; VDone; VWindow 10 5 [Some 10; Some 0]].
+Proof. vm_compute. reflexivity. Qed.
